@@ -11,6 +11,17 @@
         s:<keys>:<i,j,…>          _resolve_from_stridxs({key: index …}) in that insertion order
       response: one item per executed step: the state `v,v,…|century|d|m|y` after an append, `0`/`1`, `y,m,d`,
       or `!Err`
+    pgen.info <info> <year> <century> <fn> <cps>       fn = jump | weekday | month | hms | ampm | pertain | utczone | tzoffset
+    pgen.validate <info> <year> <century> <res.year|-> <century_specified> <tzname|N> <tzoffset|->   ->  year tzname tzoffset
+    pgen.cbtz <info> <year> <century> <hour|-> <tzname|N> <tzoffset|-> <token cps>                  _could_be_tzname
+    pgen.ampm <hour|-> <ampm|-> <fuzzy>                                                              _ampm_valid
+    pgen.todec <cps> <classes>                         _to_decimal      -> num scale
+    pgen.minsec <num> <scale>                          _parse_min_sec   -> minute second|-
+    pgen.parsems <cps> <classes>                       _parsems         -> seconds microseconds
+    pgen.assignhms <cps> <classes> <hms>               _assign_hms on an empty result -> hour minute second microsecond
+    pgen.findhms <info> <year> <century> <idx> <allow_jump> <tok;tok;…|E>      _find_hms_idx -> index|-
+    pgen.parsehms <info> <year> <century> <idx> <hms_idx|-> <tok;tok;…|E>      _parse_hms    -> new_idx hms|-
+    pgen.assigntz <n0|N> <n1|N> <tzname|N>             _assign_tzname on a fold-0 datetime -> fold
 -/
 import DateutilVerif.Ops.Parser
 import DateutilVerif.Generated.ParserOps
@@ -71,7 +82,86 @@ def script (y : Ymd) : List String → List String → Option (List String)
     | some (.error e) => some (("!" ++ e.name) :: acc).reverse
     | some (.ok (y', out)) => script y' rest (out :: acc)
 
+def showR {α} (f : α → String) : Py.R α → String
+  | .ok a => "ok " ++ f a
+  | .error e => "ok !" ++ e.name
+
+def showB (b : Bool) : String := if b then "1" else "0"
+def showOI : Option Int → String
+  | none => "-"
+  | some n => toString n
+
+def optNat? (s : String) : Option (Option Nat) := if s == "-" then some none else s.toNat?.map some
+
+def withInfo (info year century : String) (k : Info → Option String) : Option String :=
+  match year.toInt?, century.toInt? with
+  | some y, some c => (parseInfo? info y c).bind k
+  | _, _ => none
+
+def toks? (s : String) : Option (List Token) :=
+  if s == "E" then some [] else (s.splitOn ";").mapM (fun t => (parseCps? t).map (fun cs => if t == "-" then [] else cs))
+
+def tokCls? (cps classes : String) : Option ((Char → CClass) × Token) := do
+  let cs ← parseCps? cps
+  let cs := if cps == "-" then [] else cs
+  pure (clsOfTable (mkTable cs (if classes == "-" then "" else classes)), cs)
+
+def dflt : Info := Info.default false false 2000 2000
+
+def handleFn (op : String) (args : List String) : Option String :=
+  match op, args with
+  | "pgen.info", [info, y, c, fn, cps] => withInfo info y c fun i => do
+    let t ← parseCps? cps
+    let t := if cps == "-" then [] else t
+    match fn with
+    | "jump" => some (showR showB (Gen.P.info_jump i t))
+    | "pertain" => some (showR showB (Gen.P.info_pertain i t))
+    | "utczone" => some (showR showB (Gen.P.info_utczone i t))
+    | "weekday" => some (showR showON (Gen.P.info_weekday i t))
+    | "month" => some (showR showON (Gen.P.info_month i t))
+    | "hms" => some (showR showON (Gen.P.info_hms i t))
+    | "ampm" => some (showR showON (Gen.P.info_ampm i t))
+    | "tzoffset" => some (showR showOI (Gen.P.info_tzoffset i t))
+    | _ => none
+  | "pgen.validate", [info, y, c, ry, cs, tzn, tzo] => withInfo info y c fun i => do
+    let ry ← optNat? ry; let tzn ← optName? tzn; let tzo ← parseOptInt? tzo
+    let res : Res := { year := ry, centurySpecified := cs == "1", tzname := tzn, tzoffset := tzo }
+    some (showR (fun r : Res => s!"{showON r.year} {showOptName r.tzname} {showOI r.tzoffset}") (Gen.P.info_validate i res))
+  | "pgen.cbtz", [info, y, c, hour, tzn, tzo, tok] => withInfo info y c fun i => do
+    let hour ← optNat? hour; let tzn ← optName? tzn; let tzo ← parseOptInt? tzo; let t ← parseCps? tok
+    some (showR showB (Gen.P.couldBeTzname i hour tzn tzo (if tok == "-" then [] else t)))
+  | "pgen.ampm", [hour, ampm, fuzzy] => do
+    let hour ← optNat? hour; let ampm ← optNat? ampm
+    some (showR showB (Gen.P.ampmValid dflt hour ampm (fuzzy == "1")))
+  | "pgen.todec", [cps, classes] => do
+    let (cls, t) ← tokCls? cps classes
+    some (showR (fun d : Dec => s!"{d.num} {d.scale}") (Gen.P.toDecimal cls dflt t))
+  | "pgen.minsec", [num, scale] => do
+    let n ← num.toNat?; let sc ← scale.toNat?
+    some (showR (fun p : Nat × Option Nat => s!"{p.1} {showON p.2}") (Gen.P.parseMinSec dflt ⟨n, sc⟩))
+  | "pgen.parsems", [cps, classes] => do
+    let (cls, t) ← tokCls? cps classes
+    some (showR (fun p : Nat × Nat => s!"{p.1} {p.2}") (Gen.P.parsems cls dflt t))
+  | "pgen.assignhms", [cps, classes, hms] => do
+    let (cls, t) ← tokCls? cps classes
+    let h ← hms.toNat?
+    some (showR (fun r : Res => s!"{showON r.hour} {showON r.minute} {showON r.second} {showON r.microsecond}")
+      (Gen.P.assignHms cls dflt {} t h))
+  | "pgen.findhms", [info, y, c, idx, aj, toks] => withInfo info y c fun i => do
+    let idx ← idx.toNat?; let l ← toks? toks
+    some (showR showON (Gen.P.findHmsIdx i idx l (aj == "1")))
+  | "pgen.parsehms", [info, y, c, idx, hidx, toks] => withInfo info y c fun i => do
+    let idx ← idx.toNat?; let h ← optNat? hidx; let l ← toks? toks
+    some (showR (fun p : Nat × Option Nat => s!"{p.1} {showON p.2}") (Gen.P.parseHms i idx l h))
+  | "pgen.assigntz", [n0, n1, name] => do
+    let a ← optName? n0; let b ← optName? n1; let n ← optName? name
+    some (showR (fun d : PPy.FoldDt => toString d.fold) (Gen.P.assignTzname dflt { n0 := a, n1 := b } n))
+  | _, _ => none
+
 def handle (op : String) (args : List String) : Option String :=
+  match handleFn op args with
+  | some r => some r
+  | none =>
   match op, args with
   | "pgen.ymd", [steps] =>
     some (match script {} (steps.splitOn ";") [] with
